@@ -59,6 +59,8 @@ pub struct Report {
     pub replay_dir: PathBuf,
     /// when set, `announce` writes the case about to be run (attribution of aborts)
     pub progress_file: Option<PathBuf>,
+    /// per-case digests compared across processes by the driver (C14)
+    pub digests: Vec<String>,
 }
 
 impl Report {
@@ -77,6 +79,7 @@ impl Report {
             max_samples: 3,
             replay_dir,
             progress_file: None,
+            digests: vec![],
         }
     }
     /// announce the case about to run, so that a process abort can be attributed to it
@@ -140,6 +143,7 @@ impl Report {
                 "signature": v.signature, "what": v.what, "replay": v.replay
             })).collect::<Vec<_>>(),
             "inconclusive": self.inconclusive,
+            "digests": self.digests,
         })
     }
 }
@@ -297,6 +301,81 @@ fn case_variants(c: &Case) -> Vec<Case> {
     out
 }
 
+fn collect_tag_names(s: &QScope, defined: &mut BTreeSet<String>, used: &mut BTreeSet<String>) {
+    use crate::qast::Rhs;
+    for sel in &s.sels {
+        match sel {
+            Sel::Prop(p) => {
+                for t in p.tag_names() {
+                    defined.insert(t);
+                }
+                for f in &p.filters {
+                    if let Some(Rhs::Tag(t)) = &f.rhs {
+                        used.insert(t.clone());
+                    }
+                }
+            }
+            Sel::Edge(e) => {
+                if let EKind::Fold(Some(c)) = &e.kind {
+                    for t in &c.tags {
+                        defined.insert(t.clone());
+                    }
+                    for f in &c.filters {
+                        if let Some(Rhs::Tag(t)) = &f.rhs {
+                            used.insert(t.clone());
+                        }
+                    }
+                }
+                collect_tag_names(&e.child, defined, used);
+            }
+        }
+    }
+}
+
+fn drop_dangling(s: &mut QScope, defined: &BTreeSet<String>, used: &BTreeSet<String>) {
+    use crate::qast::Rhs;
+    for sel in s.sels.iter_mut() {
+        match sel {
+            Sel::Prop(p) => {
+                let local = p.local_name().to_string();
+                p.tags.retain(|t| used.contains(t.as_deref().unwrap_or(&local)));
+                p.filters.retain(|f| match &f.rhs {
+                    Some(Rhs::Tag(t)) => defined.contains(t),
+                    _ => true,
+                });
+            }
+            Sel::Edge(e) => {
+                if let EKind::Fold(Some(c)) = &mut e.kind {
+                    c.tags.retain(|t| used.contains(t));
+                    c.filters.retain(|f| match &f.rhs {
+                        Some(Rhs::Tag(t)) => defined.contains(t),
+                        _ => true,
+                    });
+                }
+                drop_dangling(&mut e.child, defined, used);
+            }
+        }
+    }
+    if s.sels.is_empty() {
+        s.sels.push(Sel::Prop(crate::qast::QProp::new("__typename")));
+    }
+}
+
+/// Make a simplified query well-formed again: drop tags nobody uses and filters whose tag is gone
+/// (to a fixpoint), and never leave an empty selection set.
+pub fn normalize_query(q: &mut Query) {
+    for _ in 0..6 {
+        let mut defined = BTreeSet::new();
+        let mut used = BTreeSet::new();
+        collect_tag_names(&q.root, &mut defined, &mut used);
+        let before = q.clone();
+        drop_dangling(&mut q.root, &defined, &used);
+        if *q == before {
+            break;
+        }
+    }
+}
+
 /// Remove arguments whose variables no longer occur, so that shrunk queries stay accepted.
 pub fn prune_args(c: &mut Case) {
     let text = c.query.render();
@@ -314,7 +393,11 @@ pub fn shrink(case: &Case, signature: &str, budget: usize, mut still_fails: impl
             if used >= budget {
                 return cur;
             }
+            normalize_query(&mut v.query);
             prune_args(&mut v);
+            if v.query == cur.query && v.ds == cur.ds {
+                continue;
+            }
             used += 1;
             if still_fails(&v).as_deref() == Some(signature) {
                 cur = v;
